@@ -158,6 +158,8 @@ CLAIMS["C03"]["text"] += " Extension round: YIELD always loads the accumulator w
 CLAIMS["C11"]["text"] += " Eq#ensures[deep]: == on every operand pair, arrays included, is the documented element-wise relation and != its negation."
 CLAIMS["C12"]["text"] += " Extension round: no part of a statement is skipped - Block compiles every statement; UnOp, IndexAt, IndexFromTo, Return, Yield, the built-in nodes, If, IfElse and Function compile their operands, branches and body (ghost marking compiledG; BinOp and Assign are exempt because of their folding / same-operand / INC shortcuts); RET and the coroutine instructions are in the VM's step relation."
 CLAIMS["C01"]["text"] += " Extension round: also RET and the coroutine instructions (isa_ret_*, isa_yield, isa_scont, isa_ccont, isa_dcont_rcont); no statement of a block and no operand of the listed node types is skipped by the compiler; an instruction that fails has stored nothing."
+CLAIMS["C19"]["text"] += " Extension round: in the listing around the failing instruction the marked line (with the operand values) is the failing instruction's and no other (dumpStack#atcall[marker_on_the_failing_instruction], [no_marker_elsewhere])."
+CLAIMS["C04"]["text"] += " An assigned value is resolved in the scope as it is before the assignment takes effect (Assign.STRewrite#atcall[value_sees_the_scope_before_the_assignment])."
 CLAIMS["C09"]["text"] += " Extension round: every non-control instruction changes the stack pointer by exactly one push minus its stack operands (vm.Run#step[loop0:isa_stack, isa_pushes_one]); fetch consumes a stack operand and nothing else."
 
 props = [json.loads(l) for l in open("/verif/properties.jsonl")]
